@@ -2,6 +2,7 @@
    One query per input line, one answer per output line.  Numbers cross the boundary as binary strings
    "[-]bits/bits" (exact rationals; Python: bin()).  Z and Q stay the Coq datatypes.
      CHK nshapes {k x y ..} sx sy dx dy n {x y}      -> "ok" | "bad seg:shape:degen ..."   (route_ok + offenders)
+     CLR nshapes {k x y ..} n {x y}                  -> "ok" | "bad seg:shape:degen ..."   (segs_clear over ALL shapes, no exemption)
      DEG k x y .. ax ay bx by                        -> "1" | "0"                          (degenerate_chord)
      CVX k x y ..                                    -> "1" | "0"                          (convex_ccw)
      PLAIN nshapes {k x y ..} sx sy dx dy            -> "route cost n x y .." | "nopath" | "fail"
@@ -84,6 +85,15 @@ let () =
              List.iter (fun ((i, j), dg) ->
                  let (orig, _) = List.nth keep (int_of_nat j) in
                  Printf.printf " %d:%d:%d" (int_of_nat i) orig (if dg then 1 else 0)) off;
+             print_newline ()
+           end
+         | "CLR" ->
+           let shapes = next_shapes () in
+           let r = next_poly () in
+           if segs_clear shapes r then print_endline "ok"
+           else begin
+             print_string "bad";
+             List.iter (fun ((i, j), dg) -> Printf.printf " %d:%d:%d" (int_of_nat i) (int_of_nat j) (if dg then 1 else 0)) (offenders shapes r);
              print_newline ()
            end
          | "DEG" ->
